@@ -564,6 +564,73 @@ fn proj(cfg: &Cfg, e: &E) -> Option<E> {
 	}
 }
 
+/// what `ClassFile::accept` hands a visitor configured by `cfg` of an event of the full replay (statement of `accept_projection`)
+fn proj_a(cfg: &Cfg, e: &E) -> Option<E> {
+	let keep = |b: bool| if b { Some(e.clone()) } else { None };
+	let cls = cfg.cls;
+	let field = |i: usize| cls.filter(|_| cfg.fields_i).and_then(|_| cfg.field(i));
+	let method = |i: usize| cls.filter(|_| cfg.methods_i).and_then(|_| cfg.method(i));
+	let code = |i: usize| method(i).filter(|mc| mc.code).and_then(|mc| mc.code_v);
+	match e {
+		E::Begin { l: Lvl::F, .. } => keep(cls.is_some() && cfg.fields_i),
+		E::Begin { l: Lvl::M, .. } => keep(cls.is_some() && cfg.methods_i),
+		E::Attr { l: Lvl::F, i, unk, k, .. } => field(*i).and_then(|fm| keep(fm.has(ev_bit(*unk, k)))),
+		E::Flags { l: Lvl::F, i, .. } | E::End { l: Lvl::F, i } => keep(field(*i).is_some()),
+		E::Attr { l: Lvl::M, i, unk, k, .. } => method(*i).and_then(|mc| keep(mc.mask.has(ev_bit(*unk, k)))),
+		E::Flags { l: Lvl::M, i, .. } | E::End { l: Lvl::M, i } => keep(method(*i).is_some()),
+		E::Begin { l: Lvl::K, i, .. } => method(*i).and_then(|mc| keep(mc.code)),
+		E::CodeMaxs { i, .. } | E::CodeExc { i, .. } | E::End { l: Lvl::K, i } | E::CodeInsns { i, .. } => keep(code(*i).is_some()),
+		E::Attr { l: Lvl::K, i, unk, k, .. } => code(*i).and_then(|cm| keep(cm.has(ev_bit(*unk, k)))),
+		E::CodeLines { i, .. } => code(*i).and_then(|cm| keep(cm.has("lnt"))),
+		E::CodeLocals { i, .. } => code(*i).and_then(|cm| keep(cm.has("lvt") || cm.has("lvtt"))),
+		_ => proj(cfg, e),
+	}
+}
+
+/// exact framing, good header, nothing the reader refuses twice — decided on the framing of the independent parser
+fn well_formed(f: &Frame) -> bool {
+	use c17frame::{CAttr, MAttr, L_CLASS, L_CODE, L_FIELD, L_METHOD, L_REC};
+	let leaf = |level: &[&str], flags: bool, a: &c17frame::Attr| -> bool {
+		if flags && (a.k == "dep" || a.k == "syn") { return a.len == 0; }
+		if a.k == "rvpa" || a.k == "ripa" { return true; }
+		if level.contains(&a.k) { a.used == a.len } else { true }
+	};
+	let lens = |v: &[&c17frame::Attr]| -> usize { 2 + v.iter().map(|a| 6 + a.len).sum::<usize>() };
+	if !f.hdr_ok { return false; }
+	for fl in &f.fields { if !fl.attrs.iter().all(|a| leaf(L_FIELD, true, a)) { return false; } }
+	for m in &f.methods {
+		for a in &m.attrs {
+			match a {
+				MAttr::Leaf(a) => if !leaf(L_METHOD, true, a) { return false; },
+				MAttr::Code(c) => {
+					let refs: Vec<&c17frame::Attr> = c.attrs.iter().collect();
+					if c.len != c.hdr + lens(&refs) { return false; }
+					if !c.attrs.iter().all(|a| leaf(L_CODE, false, a)) { return false; }
+					if c.attrs.iter().filter(|a| a.k == "smt" || a.k == "smap").count() > 1 { return false; }
+				}
+			}
+		}
+	}
+	let mut recs = 0;
+	let mut bsm = 0;
+	for a in &f.attrs {
+		match a {
+			CAttr::Leaf(a) => { if !leaf(L_CLASS, true, a) { return false; } if a.k == "bsm" { bsm += 1; } }
+			CAttr::Record { len, comps, .. } => {
+				recs += 1;
+				let mut size = 2;
+				for c in comps {
+					let refs: Vec<&c17frame::Attr> = c.attrs.iter().collect();
+					size += 4 + lens(&refs);
+					if !c.attrs.iter().all(|a| leaf(L_REC, false, a)) { return false; }
+				}
+				if *len != size { return false; }
+			}
+		}
+	}
+	recs <= 1 && bsm <= 1
+}
+
 /// a local variable event without entries cannot be told from none (the reader reports `Some(vec![])` only for an empty table)
 fn norm(evs: &[E]) -> Vec<E> { evs.iter().filter(|e| !matches!(e, E::CodeLocals { entries, .. } if entries.is_empty())).cloned().collect() }
 
@@ -680,6 +747,36 @@ fn exec(op: &str, args: &[Sexp]) -> Ans {
 			let Ok(rep) = replay(class, &Cfg::full()) else { return Ans::fail("replay") };
 			if digest(&rep) == digest(&full[0].1) { Ans::pass() } else { Ans::fail("replay") }
 		}
+		"oracle-full-read" => {
+			// `full_read_spec`: a stream of well-formed files (by the independent framing) is read completely, file by file
+			let bytes = match args { [b, _f] => match b.as_bytes() { Ok(b) => b, Err(e) => return bad(e) }, _ => return bad("arity".into()) };
+			let Some(fs) = c17frame::frames(&bytes) else { return Ans::out_of_domain() };
+			if !fs.iter().all(well_formed) { return Ans::out_of_domain(); }
+			let fulls: Vec<Cfg> = fs.iter().map(|_| Cfg::full()).collect();
+			let r = read_stream(&bytes, &fulls);
+			if r.len() == fs.len() && r.iter().zip(&fs).all(|(x, f)| matches!(x, Ok((n, _)) if *n == f.size)) { Ans::pass() } else { Ans::fail("full-read") }
+		}
+		"oracle-replay-projection" | "oracle-replay-masked" => {
+			let (bytes, cfg) = match args { [b, _f, c] => match (b.as_bytes(), Cfg::parse(c)) { (Ok(b), Ok(c)) => (b, c), _ => return bad("args".into()) }, _ => return bad("arity".into()) };
+			let s1 = Stream { bytes: bytes.clone(), cfgs: vec![cfg.clone()] };
+			if full_reads(&s1).is_none() { return Ans::out_of_domain(); }
+			let class = match duke::read_class(&mut Cursor::new(&bytes)) { Ok(c) => c, Err(_) => return Ans::out_of_domain() };
+			if op == "oracle-replay-projection" {
+				let (Ok(full), Ok(masked)) = (replay(class.clone(), &Cfg::full()), replay(class, &cfg)) else { return Ans::fail("replay") };
+				let want: Vec<E> = full.iter().filter_map(|e| proj_a(&cfg, e)).collect();
+				if masked == want { Ans::pass() } else { Ans::fail("replay-projection") }
+			} else {
+				// where the property asks replay and read to agree: the visitor wants members, frames, and both local variable tables or none
+				let nm = class.methods.len();
+				let ok_code = (0..nm).all(|i| match code_mask(&cfg, i) { Some(cm) => cm.has("smt") && cm.has("lvt") == cm.has("lvtt"), None => true });
+				if !cfg.fields_i || !cfg.methods_i || !ok_code { return Ans::out_of_domain(); }
+				let Ok(rep) = replay(class, &cfg) else { return Ans::fail("replay") };
+				match read_stream(&bytes, std::slice::from_ref(&cfg)).first() {
+					Some(Ok((_, evs))) => if digest(&rep) == digest(evs) { Ans::pass() } else { Ans::fail("replay-masked") },
+					_ => Ans::fail("read"),
+				}
+			}
+		}
 		_ => Ans::BadOp(format!("unknown op {op}")),
 	}
 }
@@ -771,6 +868,21 @@ fn one_file(out: &mut Out, r: &mut Rng, b: &[u8], f: &Frame, n_cfg: usize, oracl
 	if oracles {
 		out.op("replay", &[Sexp::bytes(b), f.sexp(), Cfg::full().sexp()]);
 		out.op("oracle-replay", &[Sexp::bytes(b), f.sexp()]);
+		out.op("oracle-full-read", &[Sexp::bytes(b), frames_sexp(fs)]);
+		let cfg = Cfg::random(r, f);
+		out.op("oracle-replay-projection", &[Sexp::bytes(b), f.sexp(), cfg.sexp()]);
+		// a configuration on which replay and read are to agree
+		let mut c2 = Cfg::random(r, f);
+		c2.fields_i = true; c2.methods_i = true;
+		for m in c2.methods.iter_mut().flatten() {
+			if let Some(cm) = &mut m.code_v {
+				let both = cm.has("lvt");
+				let mut x = Mask(cm.0 | 1 << TAGS.iter().position(|t| *t == "smt").unwrap());
+				if both { x = Mask(x.0 | 1 << TAGS.iter().position(|t| *t == "lvtt").unwrap()); } else { x = x.without("lvtt"); }
+				*cm = x;
+			}
+		}
+		out.op("oracle-replay-masked", &[Sexp::bytes(b), f.sexp(), c2.sexp()]);
 	}
 }
 
@@ -822,6 +934,7 @@ fn gen(r: &mut Rng, tier: Tier, out: &mut Out) {
 		emit_stream(out, "oracle-concat", &bytes, &fs, &cfgs);
 		emit_stream(out, "oracle-consumed", &bytes, &fs, &cfgs);
 		emit_stream(out, "oracle-projection", &bytes, &fs, &cfgs);
+		out.op("oracle-full-read", &[Sexp::bytes(&bytes), frames_sexp(&fs)]);
 	}
 	// ---- 4. malformed / edge: truncation, bad header, padded attributes under masks that skip them, refused duplicates
 	for _ in 0..(80 * scale) {
